@@ -27,6 +27,7 @@ From CL Require Import Base.Sx Base.Res Base.Str Model.AddRemove Model.Channels
                        Proofs.MergeShape Proofs.PropsShape Proofs.MergeReparse15 Proofs.SerializeReparse16
                        Proofs.PropsView Proofs.PropsWrap Proofs.SerializeIdem.
 From CL Require Proofs.C02BlocksDtd Proofs.DtdShape Proofs.DtdReparse Proofs.DtdView.
+From CL Require Proofs.C02BlocksRx Proofs.C02BlocksIni Proofs.IniShape Proofs.IniReparse Proofs.IniView.
 From Coq Require Import Lia.
 Import ListNotations.
 Local Open Scope nat_scope.
@@ -465,5 +466,104 @@ Theorem C16_idempotent_text_refuted :
 Proof.
   split; [version_ok_tac|]. split; [version_ok_tac|]. split; [version_ok_tac|].
   eexists. eexists. split; [vm_compute; reflexivity|]. split; [vm_compute; reflexivity|].
+  split; [vm_compute; reflexivity|]. vm_compute. discriminate.
+Qed.
+
+(* ---- the re-parse clause for ini ------------------------------------------------------------------
+   Reference and old localization are legal ini block lists (Proofs/C02BlocksIni.v) with
+   [IniReparse.iversion_ok m] (see Properties/C15.v: keys distinct in the whole file, section
+   names distinct, every entity / section header / comment followed by a whitespace entry,
+   whitespace entries start and end with a line break).  The value of an ini entity is the rest
+   of its line as it stands (trailing blanks are value, so the listed finding
+   serialize-ws-fold-joins-lines has no ini form); [props_wrap wrap]: Entity.wrap replaces the
+   tail of the entity text (the concrete [wrap_props]; it is the model's apply_wrap on every
+   entity of the parse, C16_wrap_ini_is_model_wrap).  New values are one line ([no_nl]; the
+   serializer escapes nothing, C16_ini_raw_newline_refuted).  Then the bytes re-parse
+   (walk_ini) without junk; the entities are, with key and value, the entities of the output
+   entry list: the reference keys with a value in reference order; the standalone comments and
+   the section headers are those of the output entry list. *)
+Theorem C16_reparse_ini : forall m rbs obs wrap nd name txt,
+  IniReparse.iversion_ok m rbs -> IniReparse.iversion_ok m obs -> NoDup (map fst nd) ->
+  props_wrap wrap ->
+  (forall k raw, In (k, Some raw) nd -> C02BlocksRx.no_nl raw = true) ->
+  let R := number 0 (IniShape.icentries_of rbs) in
+  let L := number (length (IniShape.icentries_of rbs)) (IniShape.icentries_of obs) in
+  serialize wrap name R L nd = Ok txt ->
+  exists out es,
+    serialize_entries wrap R L nd = Ok out /\ txt = concat (map c_text out) /\
+    walk_ini txt = Ok es /\
+    map (fun e => let r := C02BlocksIni.entity_record txt e in (fst (fst r), snd (fst r)))
+        (filter (C02BlocksIni.is_kind KEntity) es) = krecs out /\
+    map fst (krecs out) = filter (has_value L nd) (refkeys R) /\
+    map (fun e => C02BlocksIni.span_text txt (e_span e)) (filter (C02BlocksIni.is_kind KComment) es) =
+      ccoms out /\
+    map (fun e => C02BlocksIni.opt_text txt (e_val e)) (filter (C02BlocksIni.is_kind KSection) es) =
+      IniShape.csecs out /\
+    filter (C02BlocksIni.is_kind KJunk) es = [].
+Proof. exact IniReparse.serialize_reparse_ini. Qed.
+
+(* on every entity of the parse of a legal ini block list, the model's Entity.wrap (apply_wrap
+   over the parse context and the entity's spans) is wrap_props *)
+Theorem C16_wrap_ini_is_model_wrap : forall bs, Forall C02BlocksIni.legal_iblock bs ->
+  forall e, In e (C02BlocksIni.ientries_of bs) -> e_kind e = KEntity -> forall raw,
+  apply_wrap (C02BlocksIni.ifile_text bs) (wrap_info_of e)
+             (c_key (centry_view (C02BlocksIni.ifile_text bs) e)) raw =
+  wrap_props (centry_view (C02BlocksIni.ifile_text bs) e) raw.
+Proof. exact IniView.wrap_view_ini. Qed.
+
+(* reference  [s] / a=A / ;c / <blank> / b=B / [t] / q=Q    old  [s] / a=la / q=lq    new {b: "nb"} *)
+Definition ie (k v : list nat) : C02BlocksIni.iblock := C02BlocksIni.IEntity [] (A k) (A v) true.
+Definition isec (n : list nat) : C02BlocksIni.iblock := C02BlocksIni.ISection (A n) true.
+Definition i_ref : list C02BlocksIni.iblock :=
+  [isec [115]; ie [97] [65]; C02BlocksIni.IComment [(59%N, A [99])]; C02BlocksIni.IBlank (A [10]);
+   ie [98] [66]; isec [116]; ie [113] [81]].
+Definition i_old : list C02BlocksIni.iblock := [isec [115]; ie [97] [108; 97]; ie [113] [108; 113]].
+
+Ltac iwsok_one :=
+  unfold IniReparse.iwsok;
+  first [ intros Hw; vm_compute in Hw; discriminate
+        | intros _; eexists; split; [vm_compute; reflexivity|]; split; [vm_compute; reflexivity|];
+          intros Hl; first [vm_compute; reflexivity | exfalso; vm_compute in Hl; lia] ].
+Ltac iversion_ok_tac :=
+  split; [repeat constructor|]; split; [repeat constructor|]; split; [split; nodup_tac|];
+  split; [vm_compute; intuition (try discriminate; try lia)|];
+  unfold IniShape.icentries_of; cbn [IniShape.icents PropsShape.cflush app];
+  repeat (apply Forall_cons; [iwsok_one|]); apply Forall_nil.
+
+Example C16_example_ini_hyps :
+  IniReparse.iversion_ok 2 i_ref /\ IniReparse.iversion_ok 2 i_old /\ C02BlocksRx.no_nl (A [110; 98]) = true.
+Proof. split; [iversion_ok_tac|]. split; [iversion_ok_tac|]. vm_compute. reflexivity. Qed.
+
+(* the bytes  [s] / a=la / ;c / <blank> / b=nb / [t] / q=lq  and their parse *)
+Example C16_example_reparse_ini :
+  exists txt es,
+    serialize wrap_props (s [102;46;105;110;105])
+              (number 0 (IniShape.icentries_of i_ref))
+              (number (length (IniShape.icentries_of i_ref)) (IniShape.icentries_of i_old))
+              [(A [98], Some (A [110; 98]))] = Ok txt /\
+    txt = A [91;115;93;10; 97;61;108;97;10; 59;99;10;10; 98;61;110;98;10; 91;116;93;10; 113;61;108;113;10] /\
+    walk_ini txt = Ok es /\
+    map (fun e => let r := C02BlocksIni.entity_record txt e in (fst (fst r), snd (fst r)))
+        (filter (C02BlocksIni.is_kind KEntity) es) =
+      [(A [97], A [108; 97]); (A [98], A [110; 98]); (A [113], A [108; 113])] /\
+    map (fun e => C02BlocksIni.opt_text txt (e_val e)) (filter (C02BlocksIni.is_kind KSection) es) =
+      [A [115]; A [116]] /\
+    filter (C02BlocksIni.is_kind KJunk) es = [].
+Proof.
+  eexists. eexists. split; [vm_compute; reflexivity|]. split; [reflexivity|]. split; [vm_compute; reflexivity|].
+  split; [vm_compute; reflexivity|]. split; vm_compute; reflexivity.
+Qed.
+
+(* the premise on the new values is needed: the raw value "x<newline>y" is spliced in verbatim;
+   the second line is no key=value line and re-parses as junk *)
+Theorem C16_ini_raw_newline_refuted :
+  exists name txt es,
+    C02BlocksRx.no_nl (A [120; 10; 121]) = false /\
+    serialize wrap_props name (number 0 (IniShape.icentries_of [ie [97] [65]])) []
+              [(A [97], Some (A [120; 10; 121]))] = Ok txt /\
+    walk_ini txt = Ok es /\ filter (C02BlocksIni.is_kind KJunk) es <> [].
+Proof.
+  exists (s [102;46;105;110;105]). eexists. eexists.
+  split; [vm_compute; reflexivity|]. split; [vm_compute; reflexivity|].
   split; [vm_compute; reflexivity|]. vm_compute. discriminate.
 Qed.
